@@ -1,4 +1,4 @@
-import QipVerif.Lemmas.SimKetDm
+import QipVerif.Lemmas.SimKetCompact
 /-!
 # C01 — gate-level evolution equals the ordered product of the gates' matrices
 
@@ -186,5 +186,80 @@ example : getGateUnitary [("CTRLRX", .fn 1), ("T2", .oper)] "CTRLRX" true = .ok 
     getGateUnitary [("CTRLRX", .fn 1), ("T2", .oper)] "T2" false = .error .userControls ∧
     getGateUnitary [("CTRLRX", .fn 2)] "CTRLRX" true = .error .userParams ∧
     getGateUnitary [("CTRLRX", .fn 1)] "CNOT" false = .ok .library := by decide
+
+
+/-! ## The compact product (`gate_sequence_product(U_list, inds_list, expand=True)`) -/
+
+/-- `embL N l A`: the model matrix `A` placed on the list `l` of qubits — for a duplicate-free
+in-range list this is C08's embedding of the matrix -/
+theorem embL_spec (N : ℕ) (l : List ℕ) (hn : l.Nodup) (hr : ∀ q ∈ l, q < N) (A : FMat ℂ) :
+    embL N l A = (tgOfList N l hn hr).embed (matOf l.length A) :=
+  embL_eq_embed N l hn hr A
+
+/-- **`compact_product_eq_den`** (the repaired code: the order oracle returns sorted lists,
+fixes/C01-1.patch).  For every register size `N`, every non-empty list of gates given as
+(matrix, duplicate-free in-range qubit list) with matching dimensions: the compact product succeeds,
+reports the sorted distinct qubits, and its result placed on these qubits is the ordered product of
+the placed gates.  Proved by induction over the gate list with the invariant "the block list is a
+partition into disjoint blocks whose placed product is the product of the processed gates", and by
+induction over the recursion depth for the full-register branch. -/
+theorem compact_product_eq_den (N : ℕ) (gates : List (Block ℂ)) (hne : gates ≠ [])
+    (hw : ∀ g ∈ gates, g.2.Nodup ∧ (∀ q ∈ g.2, q < N) ∧ g.1.n = 2 ^ g.2.length) :
+    ∃ R, compactProduct opsC ordSorted gates = .ok (R, sortDedup (gates.map (·.2)).flatten) ∧
+      R.n = 2 ^ (sortDedup (gates.map (·.2)).flatten).length ∧
+      embL N (sortDedup (gates.map (·.2)).flatten) R = mprod (gates.map fun g => embL N g.2 g.1) :=
+  compactProduct_spec N gates hne hw
+-- non-vacuity: two gates on a 5-qubit register, the second on the qubits [3, 1] (descending)
+example : ∀ g ∈ [((FMat.ofRows opsC 2 [[0, 1], [1, 0]], [3]) : Block ℂ),
+      (FMat.ofRows opsC 4 [[1, 0, 0, 0], [0, 1, 0, 0], [0, 0, 0, 1], [0, 0, 1, 0]], [3, 1])],
+    g.2.Nodup ∧ (∀ q ∈ g.2, q < 5) ∧ g.1.n = 2 ^ g.2.length := by
+  intro g hg
+  simp only [List.mem_cons, List.not_mem_nil, or_false] at hg
+  rcases hg with rfl | rfl <;> simp [FMat.ofRows]
+
+/-- for the blocks of a circuit (`propagators(expand=False)` with each gate's qubits; GLOBALPHASE is
+the full-register scalar matrix on all qubits) the compact product is the circuit's ordered product -/
+theorem compact_circuit_eq_den (N : ℕ) (ops : List (Op ℂ)) (hne : ops ≠ []) (hw : ∀ op ∈ ops, WFOp N op) :
+    ∃ R, compactProduct opsC ordSorted (ops.map (opBlock N)) =
+        .ok (R, sortDedup ((ops.map (opBlock N)).map (·.2)).flatten) ∧
+      embL N (sortDedup ((ops.map (opBlock N)).map (·.2)).flatten) R = denP (ops.map (toPGate N)) :=
+  compact_circuit N ops hne hw
+example : (sortDedup [8, 4, 10, 4] = [4, 8, 10]) ∧ ordSorted [4, 8] [8, 4] = [4, 8] ∧ ordRev [4, 8] [8, 4] = [8, 4] := by
+  decide
+
+/-- the sorted list of distinct qubits reported by the compact product -/
+theorem sortDedup_spec (l : List ℕ) :
+    (sortDedup l).Pairwise (· < ·) ∧ (sortDedup l).Nodup ∧ ∀ x, x ∈ sortDedup l ↔ x ∈ l :=
+  ⟨sortDedup_sorted l, sortDedup_nodup l, fun _ => mem_sortDedup⟩
+
+/-- both order oracles are legal behaviours of `list(set(a).union(set(b)))` as far as the language
+is concerned: a duplicate-free list of exactly the elements of `a` and `b` -/
+theorem oracles_legal (a b : List ℕ) :
+    ((ordSorted a b).Nodup ∧ ∀ x, x ∈ ordSorted a b ↔ x ∈ a ∨ x ∈ b) ∧
+    ((ordRev a b).Nodup ∧ ∀ x, x ∈ ordRev a b ↔ x ∈ a ∨ x ∈ b) :=
+  ⟨ordSorted_legal a b, ordRev_legal a b⟩
+
+/-! ### Counter-example for an unsorted order (the unrepaired code on CPython with qubit labels ≥ 8) -/
+
+private def cz : CycD := CycD.zero
+private def co : CycD := CycD.one
+private def ci : CycD := ⟨0, Cyc.I⟩
+/-- X on qubit 0, S on qubit 1, then CNOT(control 0, target 1) -/
+def cexGates : List (Block CycD) :=
+  [(FMat.ofRows CycD.ops 2 [[cz, co], [co, cz]], [0]),
+   (FMat.ofRows CycD.ops 2 [[co, cz], [cz, ci]], [1]),
+   (FMat.ofRows CycD.ops 4 [[co, cz, cz, cz], [cz, co, cz, cz], [cz, cz, cz, co], [cz, cz, co, cz]], [0, 1])]
+/-- CNOT · (X ⊗ S), written out -/
+def cexDense : List (List CycD) :=
+  [[cz, cz, co, cz], [cz, cz, cz, ci], [cz, ci, cz, cz], [co, cz, cz, cz]]
+
+/-- **`C01_counterexample_unsorted_order`.** With the sorting oracle the model returns the ordered
+product; with a legal but unsorted order (`ordRev`: `list({0, 1})` answering `[1, 0]`) the same code
+returns a different matrix: `ind_map` is an argsort, not a rank, and `revised_inds` is used as if it
+were sorted.  (On the real code: fixes/C01-findings.json, 9 qubits, CNOT on `[8, 4]`.) -/
+theorem C01_counterexample_unsorted_order :
+    (compactProduct CycD.ops ordSorted cexGates).toOption.map (fun r => (r.1.rows, r.2)) = some (cexDense, [0, 1]) ∧
+    (compactProduct CycD.ops ordRev cexGates).toOption.map (fun r => r.1.rows) ≠ some cexDense := by
+  decide +kernel
 
 end QipVerif.C01
